@@ -100,6 +100,10 @@ def build(case):
         spix = np.array(sh[::-1], dtype=float)            # pixel order
         if hasattr(ll, "_wcs") and hasattr(ll, "_slices_pixel"):
             ll = ll._wcs          # (a cube reached by range slicing: move the origin of the wrapped WCS)
+        if case["wseed"] % 5 == 2 and isinstance(ll, W.ProbeWCS) and not case.get("share_wcs"):
+            # world values far from zero (exact in doubles): a one-pixel shift between the cubes is then a tiny
+            # relative difference of their world positions, and still another grid
+            ll.b = ll.b + 2.0 ** 26
         if any(sh) and shift_primary and not case.get("share_wcs"):
             if isinstance(ll, W.ProbeWCS):
                 ll.b = ll.b - ll.A @ spix                    # world(p) of cube k = world0(p - s)
